@@ -270,17 +270,23 @@ def main(argv=None):
         seen_inv = set()
         replay_dir = os.environ.get("VERIF_REPLAY_DIR") or os.path.join(VERIF, "replays")
         os.makedirs(replay_dir, exist_ok=True)
+        attempts = 0
         for row in unmatched:
             inv = row["violation"]["invariant"]
-            if inv in seen_inv or len(seen_inv) >= 3:
+            if inv in seen_inv or len(seen_inv) >= 3 or attempts >= 25:
                 continue
+            attempts += 1
             seen_inv.add(inv)
             sched = generate(seed, prop, row["run"])
             o = simulate(sched, prop)
             if not o["violations"]:
-                print("HARNESS-ERROR: violation of run %d did not reproduce in the parent process" % row["run"], flush=True)
-                harness.append({"run": row["run"], "error": "violation did not reproduce"})
+                print("HARNESS-ERROR: violation of run %d (%s) did not reproduce in the parent process: it depends on "
+                      "what ran before in the worker process" % (row["run"], inv), flush=True)
+                harness.append({"run": row["run"], "error": "violation did not reproduce in isolation"})
+                seen_inv.discard(inv)
                 continue
+            if not any(x["invariant"] == inv for x in o["violations"]):
+                inv = o["violations"][0]["invariant"]
             small, so, used = shrink(sched, prop, inv, o, cfg["shrink_evals"])
             v = [x for x in so["violations"] if x["invariant"] == inv][0]
             if match_known(v, known) is not None:
@@ -312,8 +318,8 @@ def main(argv=None):
     ok = not unmatched and not harness and not (det and (det["n_divergences"] or det["errors"]))
     print("%s: %d runs, %d violating (%d known), %d harness errors, %.1fs" %
           ("PASS" if ok else "FAIL", nruns, len(viol_rows), len(viol_rows) - len(unmatched), len(harness), wall), flush=True)
-    if unmatched:
+    if reported:
         return 1
-    if harness or (det and (det["n_divergences"] or det["errors"])):
+    if unmatched or harness or (det and (det["n_divergences"] or det["errors"])):
         return 2
     return 0
